@@ -16,6 +16,7 @@ import (
 	"os/exec"
 	"path/filepath"
 	"reflect"
+	"regexp"
 	"strconv"
 	"strings"
 )
@@ -160,7 +161,7 @@ func rewriteDir(dir string) (poolRefs, points int, err error) {
 			src[p] = data
 		}
 	}
-	rw := &rewriter{info: info, typed: typed && os.Getenv("VERIF_NO_TYPES") == "" && rewriteLevel >= 2, fset: fset, points: &pointTable, src: src}
+	rw := &rewriter{info: info, typed: typed && os.Getenv("VERIF_NO_TYPES") == "" && rewriteLevel >= 2, fset: fset, points: &pointTable, src: src, lines: map[int]int{}}
 	for i, f := range files {
 		n, pts, err := rw.file(fset, f, paths[i])
 		if err != nil {
@@ -189,7 +190,8 @@ type rewriter struct {
 	typed  bool
 	n      int
 	fset   *token.FileSet
-	points *[]string // id -> "file:line statement" (index 0 unused)
+	points *[]string   // id -> "file:line statement" (index 0 unused)
+	lines  map[int]int // id -> line of the statement in the original file
 	src    map[string][]byte
 }
 
@@ -219,6 +221,9 @@ func (rw *rewriter) point(s ast.Stmt) ast.Stmt {
 	}
 	*rw.points = append(*rw.points, fmt.Sprintf("%s:%d `%s`", filepath.Base(pos.Filename), pos.Line, text))
 	id := len(*rw.points) - 1
+	if rw.lines != nil {
+		rw.lines[id] = pos.Line
+	}
 	return &ast.ExprStmt{X: &ast.CallExpr{Fun: simrtFn("PointAt"), Args: []ast.Expr{&ast.BasicLit{Kind: token.INT, Value: strconv.Itoa(id)}}}}
 }
 
@@ -310,7 +315,32 @@ func (rw *rewriter) file(fset *token.FileSet, f *ast.File, path string) (poolRef
 	if err := printer.Fprint(&buf, fset, f); err != nil {
 		return 0, 0, err
 	}
-	return poolRefs, points, os.WriteFile(path, buf.Bytes(), 0o644)
+	return poolRefs, points, os.WriteFile(path, relineate(buf.Bytes(), filepath.Base(path), rw.lines), 0o644)
+}
+
+var pointLine = regexp.MustCompile(`^\s*simrt\.PointAt\((\d+)\)\s*$`)
+
+// relineate inserts a //line directive after every inner yield point, so that
+// the statement that follows is attributed to its line in the original file:
+// race reports and stack traces of the scratch copy then quote /repo's line
+// numbers (the path is still the scratch copy's).
+func relineate(src []byte, file string, lines map[int]int) []byte {
+	var out bytes.Buffer
+	pending := 0
+	for _, l := range bytes.SplitAfter(src, []byte("\n")) {
+		if pending > 0 && len(bytes.TrimSpace(l)) > 0 {
+			fmt.Fprintf(&out, "//line %s:%d\n", file, pending)
+			pending = 0
+		}
+		out.Write(l)
+		if m := pointLine.FindSubmatch(bytes.TrimRight(l, "\n")); m != nil {
+			id, _ := strconv.Atoi(string(m[1]))
+			if n, ok := lines[id]; ok {
+				pending = n
+			}
+		}
+	}
+	return out.Bytes()
 }
 
 func simrtFn(name string) ast.Expr {
